@@ -277,6 +277,20 @@ def run(ctx, out, tier):
                                 out.viol("C16.validate", "C16.validate|weakened", ctx.where(av, s["span"]),
                                          "a -E mapping onto an unsupported grammar is rejected only under a further condition")
                                 found = True
+        # the mappings are examined on every path that returns Ok (in every mode, `list` included)
+        from rules.C12 import err_blocks
+        acfg = cfg_of(av)
+        nxt = [bi for bi, t in av.calls() if callee_matches(t, r"Iterator>?::next$") and "extensions" in render(ctx.expr(av).operand(t["args"][0]), 600)]
+        if nxt:
+            r = acfg.reach(0, avoid=set(nxt) | err_blocks(ctx, av))
+            if any(x in acfg.exits for x in r):
+                found_bypass = [x for x in r if x in acfg.exits]
+                out.viol("C16.validate", "C16.validate|bypass", ctx.where(av, av.blocks[found_bypass[0]]["term"].get("span")),
+                         "Args::validate can return Ok without examining the -E mappings (an early return before the mapping loop): an unsupported mapping is then accepted and its files are silently skipped")
+            else:
+                v += 1
+        else:
+            out.viol("C16.validate", "C16.validate|no-loop", ctx.where(av), "Args::validate has no loop over the -E mappings")
         if found:
             v += 1
         else:
@@ -284,6 +298,12 @@ def run(ctx, out, tier):
     if main is not None:
         for bi, t in main.calls():
             if callee_matches(t, r"flags::Args::validate$"):
+                mcfg = cfg_of(main)
+                pbs = [bj for bj, t2 in main.calls() if callee_matches(t2, r"blocks::parse_blocks$")]
+                if pbs and all(mcfg.dominates(bi, bj) for bj in pbs):
+                    v += 1
+                else:
+                    out.viol("C16.validate", "C16.validate|not-before-parse", ctx.where(main, t["span"]), "Args::validate does not run on every path before the files are parsed")
                 labs = ctx.prov.read_operand(main, t["args"][1])
                 if P.has_call(labs, r"language_parsers::language_parsers$") and P.has_call(labs, r"HashMap::<K, V, S, A>::keys$"):
                     v += 1
@@ -295,7 +315,7 @@ def run(ctx, out, tier):
                     v += 1
                 else:
                     out.viol("C16.validate", "C16.validate|extensions-arg", ctx.where(main, t["span"]), "parse_blocks is not given the user's -E mappings")
-    out.inst("C16.validate", v, 3, ["-E value ∈ language_parsers().keys() else Err, before parsing"])
+    out.inst("C16.validate", v, 5, ["-E value ∈ language_parsers().keys() else Err, before parsing"])
     shared.sh_main(ctx, out)
     return meta()
 
